@@ -600,6 +600,15 @@ class Gen:
                 self.prog_case("hid", program, p, extra_line="%s " % (",".join(map(str, hs)) if hs else "-"),
                                expr_fn="run_hid [%s]" % "; ".join("%d%%nat" % h for h in hs),
                                meta={"group": g, "variant": "hiding", "hs": hs})
+            # (5b) the "every child hidden" fallbacks of Hiding's case / assertl / assertr: hide exactly the children of a
+            # case node that are not hidden nodes already, so that the node itself becomes hidden with the root of the case
+            cs_all = [k for k, n in enumerate(p) if n[0] == "case" and k < len(p) - 1]
+            for k in (cs_all if len(cs_all) <= 3 else [cs_all[0], cs_all[len(cs_all) // 2], cs_all[-1]]):
+                hs = sorted(set(c for c in (p[k][1], p[k][2]) if p[c][0] != "hid"))
+                if hs:
+                    self.prog_case("hid", program, p, extra_line="%s " % ",".join(map(str, hs)),
+                                   expr_fn="run_hid [%s]" % "; ".join("%d%%nat" % h for h in hs),
+                                   meta={"group": g, "variant": "hiding-case-children", "hs": hs})
             # (6) from scratch: cmr_spec of the erased tree of every node (only when the unfolding is small)
             if tree_size(p) <= 400:
                 self.prog_case("tab", program, p, expr_fn="run_spec_tab", meta={"group": g, "variant": "spec"})
